@@ -14,6 +14,8 @@ LEVEL_NOTE = 'Trusted: clang AST of the build flags (SSSE3/AVX2 units are parsed
 EXPLANATION = ('SPEC-ARGON, A2-DISPATCH, A2-SKELETON, A2-XOR, A2-INDEX, A2-H0, A2-HPRIME. A2-INDEX (evaluated), A2-XOR (truth table), B2-STREAM, B2-FINAL.'
          ' BIND-KEY, RACE-GLOBALS.')
 
+EXPLANATION += ' RACE-GLOBALS-AST.'
+
 
 def run(ctx, R):
     F = astq.Facts(ctx, 'K0')
